@@ -277,7 +277,7 @@ func (w *walker) callFunc(fv Value, call *ast.CallExpr, args []Value, st *state,
 			return
 		}
 	}
-	if decl := w.prog.Decl(callee); decl != nil && w.cfg.Follow != nil && w.cfg.Follow(callee) {
+	if decl := w.prog.Decl(callee); decl != nil && (w.cfg.Follow != nil && w.cfg.Follow(callee) || w.cfg.FollowCtx != nil && w.cfg.FollowCtx(callee, st.locks)) {
 		if st.fr().Depth >= w.cfg.MaxDepth {
 			panic(&Undecided{Reason: w.posf("inlining bound %d exceeded calling %s", call.Pos(), w.cfg.MaxDepth, FuncName(callee))})
 		}
